@@ -49,6 +49,7 @@ func c13Task(r *core.Rng, tier string) core.TaskSpec {
 	o := core.HistOpts{Shapes: c13Shapes, PageMin: 1, PageMax: 4, MinBatches: 1, MaxBatches: 3, MaxOps: 10, Profile: core.Benign}
 	if tier == "thorough" {
 		o.MaxOps = 16
+		o.LargePct = 1
 	}
 	w := core.GenHistory(r, o)
 	t := core.TaskSpec{Kind: "writer", W: w}
